@@ -197,6 +197,29 @@ Proof.
   exists t, ts. eexists. repeat split; eauto.
 Qed.
 
+(* the record with an EMPTY path - a type error on the document itself, or the first branch of a oneOf / anyOf whose own
+   `type` fails (a context record's path is relative to its parent) - takes the keyless message form of
+   InvalidTypeError.__init__ and exposes value and type all the same *)
+Theorem type_keyless_exposes_value_and_type pm e :
+  wf_verr pm e = true -> v_kind e = VType -> v_path e = [] ->
+  exists t ts,
+    v_sty e = Some t /\ type_decl t = Some ts /\
+    process_error e = Lib (EInvalidType (v_inst e) t (m_type false)) /\
+    existsb (has_type (v_inst e)) ts = false.
+Proof.
+  destruct e as [k vv i st sp pt pts p m ctx]. cbn [v_kind v_inst v_sty v_path]. intros H Hk Hp. subst k p.
+  cbn in H. destruct st as [t|]; try discriminate. destruct (type_decl t) as [ts|] eqn:Ht; try discriminate.
+  apply andb_true_iff in H as [_ H2]. apply negb_true_iff in H2.
+  exists t, ts. repeat split; auto.
+Qed.
+
+(* a oneOf / anyOf record with a context is translated as its FIRST context record, whatever that is *)
+Theorem combinator_translates_first_context e c rest :
+  (v_kind e = VOneOf \/ v_kind e = VAnyOf) -> v_ctx e = c :: rest -> process_error e = process_error c.
+Proof.
+  destruct e as [k vv i st sp pt pts p m ctx]. cbn [v_kind v_ctx]. intros [Hk|Hk] Hc; subst k ctx; reflexivity.
+Qed.
+
 (* ------------------------------------------------------------------------------------------------ the scanner *)
 Fixpoint run (st : sstate) (s : str) : sstate :=
   match s with [] => st | c :: r => run (fst (step st c)) r end.
